@@ -219,6 +219,8 @@ pub struct Outcome {
     pub work: u64,
     /// peak of live bytes allocated by the run's thread during the run (C01)
     pub mem_peak: u64,
+    /// the memory budget the peak was checked against (0: not checked)
+    pub mem_budget: u64,
     pub events: u64,
     pub n_chars: u64,
     /// comparisons / sub-executions performed inside this run
